@@ -78,7 +78,8 @@ def _case(draw):
         ]))
     else:
         d["ode_mod_terms"] = []
-    d["ode_split"] = draw(st.sampled_from(["one-option", "one-per-term"]))
+    # several terms in one option are separated by ';' - a trailing ';' or an empty item between two separators (`a;;b`) adds no term
+    d["ode_split"] = draw(st.sampled_from(["one-option", "one-per-term", "one-option-trailing-separator", "one-option-empty-item"]))
     d["spacing"] = {k: draw(st.sampled_from(["", " "])) for k in ("list", "table", "kv", "terms")}
     return d
 
@@ -274,8 +275,10 @@ def option_string(d):
         opts.append(f"--rate-modifier='{k}:{v}'")
     terms = [f"{t}:{f},[{' '.join(deps)}]" for t, f, deps in d["ode_mod_terms"]]
     if terms:
-        if d["ode_split"] == "one-option":
-            opts.append("--ode-modifier='" + (";" + sp.get("terms", "")).join(terms) + "'")  # a blank may follow the ';' as it may follow ','
+        if d["ode_split"].startswith("one-option"):
+            sep = ";;" if d["ode_split"] == "one-option-empty-item" else ";"
+            tail = ";" if d["ode_split"] == "one-option-trailing-separator" else ""
+            opts.append("--ode-modifier='" + (sep + sp.get("terms", "")).join(terms) + tail + "'")  # a blank may follow the ';' as it may follow ','
 
         else:
             opts += [f"--ode-modifier='{t}'" for t in terms]
